@@ -1,10 +1,11 @@
 #!/bin/bash
-# usage: bin/round.sh <PROP> <i...>   confirm sub-agent changes in /tmp/wt/<PROP>/_mut/<i> and run the property's quick check against each
+# usage: bin/round.sh <PROP> <i...>   confirm sub-agent changes in /tmp/wt/<PROP>/_mut/<i> (unless already kept in /verif/seeded)
+# and run the property's quick check against each. Works from /verif or from a vp-run snapshot of it.
 cd "$(dirname "$0")/.."
 P=$1; shift
 for i in "$@"; do
-  bin/confirm_mut.sh $P $i 2>&1 | grep -E "CONFIRMED|REJECTED|suite"
-  if [ -f seeded/$P-$i/patch.diff ]; then
-    ( flock 9; bin/mutcheck seeded/$P-$i/patch.diff $P ${EXTRA:-} 2>&1 | grep -E "oracle:|detail:|MUTCHECK" | cut -c1-300 | sed "s/^/[$P-$i] /" ) 9>/tmp/mutcheck.lock
+  if [ ! -f /verif/seeded/$P-$i/patch.diff ]; then bin/confirm_mut.sh $P $i 2>&1 | grep -E "CONFIRMED|REJECTED|suite"; fi
+  if [ -f /verif/seeded/$P-$i/patch.diff ]; then
+    ( flock 9; bin/mutcheck /verif/seeded/$P-$i/patch.diff $P ${EXTRA:-} 2>&1 | grep -E "oracle:|detail:|MUTCHECK" | cut -c1-300 | sed "s/^/[$P-$i] /" ) 9>/tmp/mutcheck.lock
   fi
 done
